@@ -347,5 +347,63 @@ func recvOwnsMemory(p *Prog, r *Report, R string) {
 			r.Check(why == "", R, key, p.InstrPos(in), "memory of the message", "the "+fv.Name()+" of the received message is not memory of its own: "+why+"; the next frame on this connection overwrites the message while its receiver still holds it")
 		})
 	}
+	// ... and the message itself is made by this call: every message a Recv returns is the
+	// result of NewMessage in that very invocation (or nil with an error), never one kept in
+	// the connection and handed out again
+	for _, fn := range p.Funcs {
+		rel, _ := p.FuncRel(fn)
+		if !strings.HasPrefix(rel, "transport") || fn.Name() != "Recv" || fn.Signature.Recv() == nil || fn.Signature.Results().Len() != 2 {
+			continue
+		}
+		bad := ""
+		EachInstr(fn, func(in ssa.Instruction) {
+			ret, ok := in.(*ssa.Return)
+			if !ok || len(ret.Results) != 2 {
+				return
+			}
+			seen := map[ssa.Value]bool{}
+			var walk func(v ssa.Value, d int)
+			walk = func(v ssa.Value, d int) {
+				if v == nil || seen[v] || d > 8 || bad != "" {
+					return
+				}
+				seen[v] = true
+				switch x := v.(type) {
+				case *ssa.Phi:
+					for _, e := range x.Edges {
+						walk(e, d+1)
+					}
+				case *ssa.Const:
+				case *ssa.Call:
+					if sc := x.Call.StaticCallee(); sc != nil && p.moduleFunc(sc) && sc.Name() != "NewMessage" && sc.Signature.Recv() != nil {
+						// a helper of the pipe: its own returns are examined when it is named Recv;
+						// other helpers are read through
+						EachInstr(sc, func(i2 ssa.Instruction) {
+							if r2, ok := i2.(*ssa.Return); ok && len(r2.Results) >= 1 && isMsgPtr(r2.Results[0].Type()) {
+								walk(r2.Results[0], d+1)
+							}
+						})
+					}
+				case *ssa.UnOp:
+					if x.Op == token.MUL {
+						if rv := reachingStore(x); rv != nil {
+							walk(rv, d+1)
+							return
+						}
+						if fa, ok := x.X.(*ssa.FieldAddr); ok {
+							if fv, ow := fieldAddrVar(fa); fv != nil && ow != nil {
+								bad = "the message returned at " + p.InstrPos(in) + " is the one kept in " + fieldKey(fv, ow)
+							}
+						}
+					}
+				case *ssa.Extract:
+					walk(x.Tuple, d+1)
+				}
+			}
+			walk(ret.Results[0], 0)
+		})
+		n++
+		r.Check(bad == "", R, p.FuncName(fn)+"/message", p.Pos(fn.Pos()), "every returned message is made by this call", bad+": the same Message object is handed out again for a later frame, while the receiver of the earlier one still owns it")
+	}
 	r.Count("c17.recv_buffer_installs", n)
 }
